@@ -363,7 +363,11 @@ def finish(pid, mod, tier, seed, nshards, results, problems, t0, replay=None):
     known_examples = {}
     n_viol = 0
     for r in results:
-        monitors.update(r["monitors"])
+        for mk, mv in r["monitors"].items():
+            if mk.startswith("max "):
+                monitors[mk] = max(monitors.get(mk, 0), mv)   # maxima are merged by max, counts by sum
+            else:
+                monitors[mk] += mv
         classes.update(r["classes"])
         skipped.update(r["skipped"])
         known_hits.update(r["known_hits"])
